@@ -225,7 +225,8 @@ CONFIG["C07"] = dict(
                "The round-one content of OwnNet is discharged from the dealer's own Start (Proofs/DkgEmit): dealer_start_outputs - Start emits the broadcast of the verification vector of the polynomial it drew and one private share message a(i+1) per other participant - and receiver_accepts_dealer_emission - "
                "under the laws tying the writers of the crypto record to its readers (OpsLaws: the serialized vector parses back, a written share reads back, the Feldman check accepts a(i+1) against the vector of a; satisfiable: example) a receiver classifies exactly these messages, in every state, as the dealer's vector and its own valid share. "
                "For the BLS record the driver runs, the key law is a theorem of the executable model (Props.C07Model, Proofs/BlsFeldman over the E2 group bridge): bls_feldman_identity - the commitment vector (a_k * g2) evaluated 'in the exponent' at x (model of E2_polynomial_image) equals polyEval a x * g2 - and "
-               "bls_honest_share_passes_check - the share a(i+1) passes checkLog against the public key shares a receiver derives from the dealer's commitments, for every polynomial, group size and receiver. "
+               "bls_honest_share_passes_check - the share a(i+1) passes checkLog against the public key shares a receiver derives from the dealer's commitments, for every polynomial, group size and receiver; "
+               "bls_vector_reader_accepts_writer (Proofs/BlsLaws: E2 codec round trip, membership of the multiples of g2, chunking) and bls_ops_laws: OpsLaws HOLDS for the BLS record the driver runs, for every polynomial of threshold+1 coefficients, so receiver_accepts_dealer_emission applies to the real record (a zero share, probability 2^-255, is refused by the reader as in the code and is excluded). "
                "What remains a hypothesis: the delivery itself (these messages arrive in round one, unaltered and once), that every complainer is answered in time with a valid answer, and at most t complainers.",
     level_note="Lean kernel + correspondence; reliable broadcast and round synchrony are assumptions of the property, implemented by the scheduler",
     assumptions=["reliable broadcast, round-synchronous delivery, at most t Byzantine participants"],
